@@ -553,6 +553,7 @@ def evaluate(case, env):
             want_tree = copy.deepcopy(tree)
             k_ = len(ref_pat)
             nested = False
+            one_line_suite = False
             for sl_ in list(_stmt_lists(want_tree)):
                 i_ = 0
                 chosen = []
@@ -563,9 +564,18 @@ def evaluate(case, env):
                     else:
                         i_ += 1
                 for i_ in reversed(chosen):
+                    ln_ = src.split("\n")[sl_[i_].lineno - 1]
+                    if ln_.encode("utf-8")[: sl_[i_].col_offset].strip():
+                        one_line_suite = True  # the window stands behind a block header or a ';' on the same line
                     if any(isinstance(x, ast.stmt) and x is not st_ and hasattr(st_, "body") for st_ in sl_[i_: i_ + k_] for x in ast.walk(st_)):
                         nested = True  # the window itself holds statement blocks (matches inside matches): not compared
                     sl_.insert(i_, ast.Expr(value=ast.Call(func=ast.Name(id="marker_stmt", ctx=ast.Load()), args=[], keywords=[])))
+            if one_line_suite:
+                # input feature of a recorded finding: a multi-line goal for a statement that does not start its line
+                out.labels["multiline_goal_for_statement_in_one_line_suite"] += 1
+                if env.known("multiline_goal_for_statement_in_one_line_suite"):
+                    out.excluded["multiline_goal_for_statement_in_one_line_suite"] += 1
+                    return out
             if not nested and not _eq(new_tree, want_tree):
                 out.violation("C19:statement_goal_substitution", "pattern %r goal %r\nexpected %s\ngot      %s" % (pattern, goal, ast.unparse(want_tree)[:400], ast.unparse(new_tree)[:400]), sub)
                 return out
